@@ -178,14 +178,19 @@ pub fn head(sock: &Path, topic: &str, ctx: u128, explicit_zero: bool) -> HOut<Op
 }
 
 pub fn read_query(opts: &ROpts) -> String {
+    read_query_spelled(opts, false)
+}
+
+/// `bare`: switches are written as bare flags (`?follow&tail`), the other accepted spelling.
+pub fn read_query_spelled(opts: &ROpts, bare: bool) -> String {
     let mut q = Vec::new();
     match opts.follow {
         None => {}
-        Some(0) => q.push("follow=true".to_string()),
+        Some(0) => q.push(if bare { "follow".to_string() } else { "follow=true".to_string() }),
         Some(n) => q.push(format!("follow={n}")),
     }
     if opts.tail {
-        q.push("tail=true".into());
+        q.push(if bare { "tail".to_string() } else { "tail=true".to_string() });
     }
     if let Some(l) = opts.last_id {
         q.push(format!("last-id={}", id_str(l)));
@@ -377,8 +382,12 @@ fn take_units(acc: &mut Vec<u8>, sse: bool) -> Result<Vec<WFrame>, String> {
 
 /// Returns once the response head (200) has arrived: the server subscribes before it answers.
 pub fn follow_start(sock: &Path, opts: &ROpts, sse: bool) -> Result<HttpFollower, String> {
+    follow_start_spelled(sock, opts, sse, false)
+}
+
+pub fn follow_start_spelled(sock: &Path, opts: &ROpts, sse: bool, bare: bool) -> Result<HttpFollower, String> {
     use std::sync::atomic::Ordering;
-    let target = format!("/{}", read_query(opts));
+    let target = format!("/{}", read_query_spelled(opts, bare));
     let mut req = Req::new("GET", &target);
     if sse {
         req = req.header("Accept", b"text/event-stream");
